@@ -28,13 +28,14 @@ def rot1 (c : Char) : Char :=
   else c
 
 def hostEnv (extraCmds : List String) (bare : Bool := false) : Env Host where
-  knows f := f == "probe" || f == "two" || f == "boom" || f == "nr" || f == "tick"
+  knows f := f == "probe" || f == "two" || f == "boom" || f == "nr" || f == "tick" || f == "crash"
   call f args h :=
     let h := { h with log := h.log ++ [f ++ "(" ++ showVals args ++ ")"] }
     match f, args with
     | "probe", [v] => (.ok (some v), h)
     | "two", [a, _] => (.ok (some a), h)
     | "nr", _ => (.ok none, h)
+    | "crash", _ => (.panic .host, h)      -- a host function that panics: the panic is the host's, what follows is the runner's
     | "tick", [] => (.ok (some (.num (F64.ofNat (h.ticks + 1)))), { h with ticks := h.ticks + 1 })
     | _, _ => (.err .callFailed, h)
   cmd name args h :=
